@@ -508,7 +508,7 @@ fn check_closed_world(sim: &mut Sim, final_: bool) {
         }
     }
     for l in &log {
-        if l.starts_with("NET ") {
+        if l.starts_with("NET ") || l.starts_with("EX ") {
             bad.push(l.clone());
             continue;
         }
@@ -536,13 +536,14 @@ fn check_closed_world(sim: &mut Sim, final_: bool) {
         bad.sort();
         bad.dedup();
         let net = bad.iter().any(|b| b.starts_with("NET "));
+        let ex = bad.iter().any(|b| b.starts_with("EX "));
         sim.res.violate(Violation {
             property: "C10".into(),
-            oracle: if net { "C10.no_network".into() } else { "C10.writes_confined".into() },
-            class: if net { "network_call".into() } else { "write_outside_configured".into() },
+            oracle: if net { "C10.no_network".into() } else if ex { "C10.no_helper_program".into() } else { "C10.writes_confined".into() },
+            class: if net { "network_call".into() } else if ex { "program_started".into() } else { "write_outside_configured".into() },
             detail: format!(
                 "the language server {}: {:?} (configured: user dictionary {}, file dictionaries in {}, statistics {})",
-                if net { "made a network call" } else { "created or modified a path outside the configured dictionary/statistics files" },
+                if net { "made a network call" } else if ex { "started another program (only the open-URL command may; what a helper does with the text is outside Harper's promise)" } else { "created or modified a path outside the configured dictionary/statistics files" },
                 bad.iter().take(6).collect::<Vec<_>>(),
                 user_dict_path(&sim.client.settings),
                 file_dict_dir(&sim.client.settings),
